@@ -59,6 +59,10 @@ func UnsetFlag(f *asn1.BitString, i int) {
 func IsFlagSet(f *asn1.BitString, i int) bool {
 	//Which byte?
 	b := i / 8
+	if i < 0 || b >= len((*f).Bytes) {
+		// A flag beyond the end of a (short) bit string received from a peer is not set.
+		return false
+	}
 	//Which bit in byte
 	p := uint(7 - (i - 8*b))
 	if (*f).Bytes[b]&(1<<p) != 0 {
